@@ -1,7 +1,9 @@
 package props
 
 import (
+	"crypto/tls"
 	"fmt"
+	"net"
 	"strconv"
 	"testing"
 	"time"
@@ -193,10 +195,59 @@ var c03Extreme = [][]string{{"LPOP", "list", "9223372036854775807"}, {"RPOP", "l
 	{"GETRANGE", "str", "-9223372036854775808", "9223372036854775807"}, {"SCAN", "0", "COUNT", "9223372036854775807"}, {"ZADD", "zset", "NX", "CH", "1", "m"}, {"ZADD", "zset", "XX", "GT", "INCR", "1", "a"},
 	{"SETEX", "str", "9223372036854775807", "v"}, {"EXPIRE", "str", "-9223372036854775808"}, {"DECRBY", "num", "-9223372036854775808"}, {"SELECT", "9223372036854775807"}}
 
+// c03Idle: a connection (plain TCP or TLS, real listeners) that sends a request, stays idle for a while and sends
+// another one: both requests get their reply.
+type c03Idle struct {
+	Seconds int  `json:"seconds"`
+	TLS     bool `json:"tls"`
+}
+
+func evalC03Idle(c c03Idle) *Failure {
+	pk := sharedPKI()
+	srv, _ := newRecServer()
+	srv.ServerCert, srv.ServerKey, srv.CACerts = pk.Server.CertPEM, pk.Server.KeyPEM, pk.Root.CertPEM
+	port, tlsPort, err := startOnFreePorts(srv, true)
+	if err != nil {
+		return failf("harness|start", "Start: %v", err)
+	}
+	defer srv.Stop()
+	what := fmt.Sprintf("connection (tls=%v) idle for %d s between two requests", c.TLS, c.Seconds)
+	var conn net.Conn
+	if c.TLS {
+		conn, err = tls.DialWithDialer(&net.Dialer{Timeout: 10 * time.Second}, "tcp", fmt.Sprintf("127.0.0.1:%d", tlsPort), pk.ClientConfig(pk.Client("verif-client", pk.Root, false)))
+	} else {
+		conn, err = net.DialTimeout("tcp", fmt.Sprintf("127.0.0.1:%d", port), 10*time.Second)
+	}
+	if err != nil {
+		return failf("harness|dial", "%s: %v", what, err)
+	}
+	defer conn.Close()
+	if v, err := roundTrip(conn, resp.Cmd("PING").Bytes(), 10*time.Second); err != nil || !v.Equal(resp.S("PONG")) {
+		return failf("harness|first-ping", "%s: first PING answered %v, %v", what, v, err)
+	}
+	time.Sleep(time.Duration(c.Seconds) * time.Second)
+	for i, req := range [][]string{{"PING"}, {"ECHO", "still-here"}} {
+		v, err := roundTrip(conn, resp.Cmd(req...).Bytes(), 15*time.Second)
+		if err != nil {
+			return failf("c03|idle-connection|no-reply", "%s: request %v after the idle period got no reply: %v", what, req, err)
+		}
+		want := resp.S("PONG")
+		if i == 1 {
+			want = resp.B("still-here")
+		}
+		if !sameText(v, want) {
+			return failf("c03|idle-connection|reply", "%s: request %v after the idle period answered %s", what, req, v)
+		}
+	}
+	return nil
+}
+
+func init() { register("c03.idle", evalC03Idle) }
+
 func TestC03(t *testing.T) {
 	h := newHarness(t, "C03", "pipelines of 1..12 requests drawn from every registered command (well-formed from the grammar with all option flags, ill-formed table entries, surplus arguments, unknown names; QUIT at a random position in 20%) "+
 		"x chunkings of the byte stream (whole, per request, per byte, random k-way biased to length prefixes and CR|LF) x scripted handler errors. Oracle: strict decoder splits the output into exactly one frame per request up to the first QUIT; "+
-		"reply i is tied to request i through the handler call made while i frames were complete; at every moment the server asks for undelivered bytes it has answered every fully delivered request; watchdog for stalls; QUIT semantics. "+
+		"reply i is tied to request i through the handler call made while i frames were complete; at every moment the server asks for undelivered bytes it has answered every fully delivered request; watchdog for stalls; QUIT semantics. Two connections on real listeners (plain, TLS) stay idle for 12 s (thorough: also 75 s) between two requests and must still be answered. "+
 		"Non-trivial: >=3 requests and (a chunk boundary inside the stream, QUIT not last, an option-bearing command, or a handler error). Distinct = distinct (stream, chunking, script).")
 	defer h.Finish()
 	h.Probes()
@@ -217,6 +268,31 @@ func TestC03(t *testing.T) {
 		h.Col.Case(true, []byte("child-all"), "child-extreme-count")
 		h.Report("c03.child", all, evalC03Child(all))
 	}
+
+	// connections that stay idle between two requests, in the background while the rest runs
+	type idleRes struct {
+		c c03Idle
+		f *Failure
+	}
+	var idle []chan idleRes
+	if h.Shard == 0 {
+		cases := []c03Idle{{Seconds: 12, TLS: true}, {Seconds: 12, TLS: false}}
+		if h.Thorough() {
+			cases = append(cases, c03Idle{Seconds: 75, TLS: true}, c03Idle{Seconds: 75, TLS: false})
+		}
+		for _, c := range cases {
+			ch := make(chan idleRes, 1)
+			idle = append(idle, ch)
+			go func(c c03Idle) { ch <- idleRes{c, evalC03Idle(c)} }(c)
+		}
+	}
+	defer func() {
+		for _, ch := range idle {
+			r := <-ch
+			h.Col.Case(true, []byte(fmt.Sprint("idle", r.c)), "idle-connection")
+			h.Report("c03.idle", r.c, r.f)
+		}
+	}()
 
 	h.Rapid("pipelines", h.N(30000, 400000), func(rt *rapid.T) {
 		c, labels := genPipeline(rt, h.Avoid, 12, false)
